@@ -42,7 +42,8 @@ func init() {
 
 func stdCRLChain() *Chain {
 	return cachedChain("crlca", func() *Chain {
-		return NewChain([]CertSpec{{Subject: name("crl-leaf")}, {Subject: name("crl-issuer")}})
+		// (an RSA issuer: its signatures all have the same length, so that bundles of the same shape make entries of the same size)
+		return NewChain([]CertSpec{{Subject: name("crl-leaf")}, {Subject: name("crl-issuer"), Key: RSA2048}})
 	})
 }
 
@@ -75,10 +76,33 @@ func makeCRL(number int64, nextUpdate time.Time, pad int, delta bool) *x509.Revo
 	return rl
 }
 
+// makeCRLTagged mints a CRL that revokes exactly one certificate whose serial number encodes tag: CRLs with different tags
+// differ in content and in nothing else - in particular not in size
+func makeCRLTagged(number int64, nextUpdate time.Time, tag int, delta bool) *x509.RevocationList {
+	issuer, key := crlIssuer()
+	this := time.Now().Add(-time.Hour)
+	if !nextUpdate.After(this.Add(time.Hour)) {
+		this = nextUpdate.Add(-24 * time.Hour)
+	}
+	tmpl := &x509.RevocationList{Number: big.NewInt(number), ThisUpdate: this, NextUpdate: nextUpdate,
+		RevokedCertificateEntries: []x509.RevocationListEntry{{SerialNumber: big.NewInt(int64(5000000 + tag)), RevocationTime: time.Now().Add(-2 * time.Hour)}}}
+	if delta {
+		tmpl.ExtraExtensions = []pkix.Extension{{Id: []int{2, 5, 29, 27}, Critical: true, Value: []byte{0x02, 0x01, 0x01}}}
+	}
+	der, err := x509.CreateRevocationList(rand.Reader, tmpl, issuer, key)
+	must(err)
+	rl, err := x509.ParseRevocationList(der)
+	must(err)
+	return rl
+}
+
 var writerIdx = map[string]int{"w1": 1, "w2": 2, "w3": 3, "w4": 4}
 var idxWriter = map[int]string{1: "w1", 2: "w2", 3: "w3", 4: "w4"}
 
-func jobNumber(w string, j int) int64 { return int64(writerIdx[w]*100 + j) }
+// (all numbers have four digits and two bytes: bundles of the same shape make entries of exactly the same size)
+const numBase = 1000
+
+func jobNumber(w string, j int) int64 { return int64(numBase + writerIdx[w]*100 + j) }
 
 var bundleCache sync.Map
 
@@ -98,7 +122,7 @@ func jobBundle(w string, j int, pad int) *corecrl.Bundle {
 }
 
 // hasDelta: whether the bundle whose base CRL has this number was stored with a delta CRL
-func hasDelta(n int64) bool { return (n/100+n%100)%2 == 1 }
+func hasDelta(n int64) bool { n -= numBase; return (n/100+n%100)%2 == 1 }
 
 // consistent: base and delta are the two halves of ONE stored bundle (not a mixture of two)
 func consistent(base, delta *x509.RevocationList) bool {
@@ -113,7 +137,7 @@ func consistent(base, delta *x509.RevocationList) bool {
 }
 
 func deltaNumber(n int64) int64 {
-	if w := (n / 100) % 4; w == 2 || w == 3 { // the bundles of every other writer
+	if w := ((n - numBase) / 100) % 4; w == 2 || w == 3 { // the bundles of every other writer
 		return n - 50
 	}
 	return n + 5000
@@ -176,7 +200,7 @@ func decodeEntryFile(path string) EntryObs {
 	if !consistent(rl, dl) {
 		return EntryObs{Kind: "undecodable"} // a mixed entry
 	}
-	n := int(rl.Number.Int64())
+	n := int(rl.Number.Int64()) - numBase
 	return EntryObs{Kind: "file", W: idxWriter[n/100], J: n % 100}
 }
 
@@ -215,7 +239,7 @@ func doGet(c *crl.FileCache, url string) ResObsC {
 	if b == nil || b.BaseCRL == nil || b.BaseCRL.Number == nil || !consistent(b.BaseCRL, b.DeltaCRL) {
 		return ResObsC{Kind: "corrupt"} // (also: base and delta of two different stored bundles)
 	}
-	n := int(b.BaseCRL.Number.Int64())
+	n := int(b.BaseCRL.Number.Int64()) - numBase
 	return ResObsC{Kind: "hit", W: idxWriter[n/100], J: n % 100}
 }
 
@@ -245,9 +269,20 @@ type gate struct {
 
 var hookOnce sync.Once
 
+// coarseMtime makes the cache directory behave like one on a file system with two-second time stamps (FAT, some network file
+// systems): the finished temporary file gets its modification time rounded down before it is renamed into place, so that stores
+// shortly after one another leave entries with the SAME modification time - whatever the load on this machine
+func coarseMtime(point, temp string) {
+	if point == "closed" {
+		t := time.Now().Truncate(2 * time.Second)
+		_ = os.Chtimes(temp, t, t)
+	}
+}
+
 func installHook() {
 	hookOnce.Do(func() {
 		crl.SetVerifWriteHook(func(point, temp, path string) {
+			coarseMtime(point, temp)
 			v, ok := gateReg.Load(filepath.Dir(path) + "|" + fmt.Sprint(goid()))
 			if !ok {
 				return
@@ -464,6 +499,7 @@ func runCRLChild() int {
 		must(syscall.Setrlimit(syscall.RLIMIT_FSIZE, &syscall.Rlimit{Cur: 64, Max: 64}))
 	}
 	crl.SetVerifWriteHook(func(point, temp, path string) {
+		coarseMtime(point, temp)
 		fmt.Fprintf(ack, "%s\n", point)
 		b := make([]byte, 1)
 		if _, err := ctl.Read(b); err != nil || b[0] == 'k' {
